@@ -66,7 +66,7 @@ HName(h) == IF h = <<>> THEN "" ELSE h[1].nm \o ";" \o HName(Tail(h))
 ClassOf(h) == IF h = <<>> THEN "empty" ELSE IF Len(h) > HistLen THEN "random" ELSE h[Len(h)].nm   \* class = the last operation
 
 Cases == Hists \o Randoms
-Programs == [i \in 1..Len(Cases) |-> FreshProg(Prelude \o Body(Cases[i]), 1)]
+Programs == TLCEval([i \in 1..Len(Cases) |-> FreshProg(Prelude \o Body(Cases[i]), 1)])
 FamProgOf(i) == Programs[i]
 Init == \E i \in 1..Len(Programs) : InitSem(i, <<>>, FALSE)
 Next == SemNext
